@@ -71,7 +71,7 @@ def do_query(m, ref, info, sort_on, q, ctx, where):
     mfaces, fid, medges, eid = info
     nV, nC, nF, nE = ref.nV, len(ref.C), len(mfaces), len(medges)
     sig = "q:" + kind
-    np_ids = bool(ctx.case.get("np_ids"))
+    np_ids = bool((getattr(ctx, "case", None) or {}).get("np_ids"))
 
     def call(f, *args):
         if np_ids:
